@@ -420,7 +420,17 @@ def execute(case, L, *, sync=False, flav=None, susp=0, fault_kind="exc", cancel_
                     it = it.__aiter__()
             except BaseException as e:  # noqa: BLE001
                 construct_exc = e
-            for _ in range(nnext):
+            # a caller may edit their own list once a tool has seen its end: what a tool has taken
+            # is the tool's (itertools.cycle replays the items it saw, not the list)
+            stop_step, nx = {}, 0
+            for e_ in case["log"]:
+                nx += e_["ev"] == "next"
+                if e_["ev"] == "pull" and e_.get("res") == "stop" and e_["src"] >= 1:
+                    stop_step.setdefault(e_["src"], nx)
+            for step_ in range(1, nnext + 1):
+                for i_, at in stop_step.items():
+                    if at == step_ - 1 and not sync and i_ <= len(S) and type(S[i_ - 1]).__name__ == "ListSource":
+                        S[i_ - 1][:] = [Item(i_, 90 + j_, 1) for j_ in range(2)]
                 rec.ev(ev="next")
                 o.started = True
                 if construct_exc is not None:
